@@ -19,8 +19,8 @@ ASSUMPTIONS = [
     'transitions are observed through ENTERED_STATE callbacks while the process is open and through state sampling after every loop callback afterwards',
 ]
 BUDGET = {
-    'quick': {'enum': ['k1', 'k2', 'hooks', 'wc', 'tasks', 'observers', 'closed'], 'hyp': 4000, 'shards': 8},
-    'thorough': {'enum': ['k1', 'k2', 'k3', 'k4w', 'hooks', 'wc', 'tasks', 'observers', 'closed'], 'hyp': 160000, 'shards': 16},
+    'quick': {'enum': ['k1', 'k2', 'hooks', 'wc', 'tasks', 'observers', 'closed', 'extsoon'], 'hyp': 4000, 'shards': 8},
+    'thorough': {'enum': ['k1', 'k2', 'k3', 'k4w', 'hooks', 'wc', 'tasks', 'observers', 'closed', 'extsoon'], 'hyp': 160000, 'shards': 16},
 }
 
 ALPHABET = [['pause', 'p'], ['play'], ['kill', 'kt'], ['resume', 1], ['fail', '']]  # (an exception with an empty message is an exception)
@@ -53,6 +53,16 @@ def enumerate_cases(tier, scope):
                         continue
                     for raising in (None, 1):
                         yield {'program': gen.CATALOGUE[name], 'schedule': sched, 'cleanup_raises': raising, 'tag': f'tasks:{name}'}
+        return
+    if scope == 'extsoon':
+        # callbacks scheduled by whoever holds the process, raising or not, also before the first step and while paused
+        alpha = [['ext_soon', 'raise', 'x'], ['ext_soon', 'ok', 'y'], ['pause', 'p'], ['play'], ['kill', 'kt']]
+        for name in ('async2', 'wait1', 'chain'):
+            for k in (1, 2):
+                for sched in gen.schedules(alpha, k, 2):
+                    if not any(ev[0] == 'ext_soon' for ev in sched):
+                        continue
+                    yield {'program': gen.CATALOGUE[name], 'schedule': sched, 'tag': f'extsoon:{name}'}
         return
     if scope == 'closed':
         # close() on a live process (it drops the hooks and callbacks): control calls afterwards still move the bare state
@@ -110,7 +120,7 @@ def enumerate_cases(tier, scope):
 @st.composite
 def _cases(draw, tier):
     prog = draw(gen.programs(max_steps=4 if tier == 'quick' else 6, self_calls=(), soon=True))
-    sched = draw(gen.control_schedules(['pause', 'play', 'kill', 'resume', 'fail', 'open', 'cancel_task', 'restep', 'close'], max_events=5, max_gap=4))
+    sched = draw(gen.control_schedules(['pause', 'play', 'kill', 'resume', 'fail', 'open', 'cancel_task', 'restep', 'close', 'ext_soon'], max_events=5, max_gap=4))
     case = {'program': prog, 'schedule': sched}
     if draw(st.integers(0, 2)) == 0:
         case['hooks'] = draw(gen.hook_plans(['kill', 'pause', 'play', 'fail']))
